@@ -233,6 +233,7 @@ PROPS = {
         level='other',
         contracts=[],
         functions=[],
+        case_functions=[dict(module='vf.contracts.poisson_wiring', key='pygyro/poisson/poisson_solver.py::solveEquation')],
         bounded=[dict(module='vf.rt.bounded_poisson', prop='C14',
                       bound='real DiffEqSolver on process grids 1x1..3x2, degrees 1-5, 8-14 radial points, uniform-cubic and general '
                             'spline objects (equidistant breaks), constant A and random B,C,D,E, quadrature exactness p-1..2p+3, all '
@@ -246,6 +247,7 @@ PROPS = {
         level='other',
         contracts=[],
         functions=[],
+        case_functions=[dict(module='vf.contracts.poisson_wiring', key='pygyro/poisson/poisson_solver.py::solveEquation')],
         bounded=[dict(module='vf.rt.bounded_poisson', prop='C15',
                       bound='real QuasiNeutralitySolver pipeline (getModes, layout changes, solveEquation, findPotential) twice on the '
                             'same objects, ntheta 4-9 (even and odd), chi 0/1, adiabatic and kinetic electrons, process grids 1x1..3x2, '
